@@ -379,6 +379,14 @@ def parseLine (line : Bytes) : Except PErr HLine :=
   | 45 :: r => .ok (.rem r)
   | _ => .error .malformedLine
 
+def cOrig : HLine → Nat
+  | .ins _ => 0
+  | _ => 1
+
+def cMod : HLine → Nat
+  | .rem _ => 0
+  | _ => 1
+
 /-- the `while orig_size < hunk.orig_range or mod_size < hunk.mod_range` loop -/
 def readLines (oR mR : Nat) : Nat → Nat → List Bytes → Except PErr (List HLine × List Bytes)
   | oS, mS, [] => if oS < oR ∨ mS < mR then .error .truncated else .ok ([], [])
@@ -387,9 +395,7 @@ def readLines (oR mR : Nat) : Nat → Nat → List Bytes → Except PErr (List H
       match parseLine l with
       | .error e => .error e
       | .ok hl =>
-        let oS' := match hl with | .ins _ => oS | _ => oS + 1
-        let mS' := match hl with | .rem _ => mS | _ => mS + 1
-        match readLines oR mR oS' mS' ls with
+        match readLines oR mR (oS + cOrig hl) (mS + cMod hl) ls with
         | .error e => .error e
         | .ok (hls, rest) => .ok (hl :: hls, rest)
     else .ok ([], l :: ls)
@@ -405,13 +411,16 @@ theorem readLines_rest_le (oR mR oS mS : Nat) (ls : List Bytes) (hls : List HLin
   | cons l ls ih =>
     unfold readLines at h
     split at h
-    · split at h
-      · simp at h
-      · split at h
-        · simp at h
-        · rename_i hls' rest' heq
-          simp only [Except.ok.injEq, Prod.mk.injEq] at h
-          have := ih _ _ _ _ heq
+    · cases hp : parseLine l with
+      | error e => simp [hp] at h
+      | ok hl =>
+        simp only [hp] at h
+        cases hr : readLines oR mR (oS + cOrig hl) (mS + cMod hl) ls with
+        | error e => simp [hr] at h
+        | ok pr =>
+          obtain ⟨hls', rest'⟩ := pr
+          simp only [hr, Except.ok.injEq, Prod.mk.injEq] at h
+          have := ih _ _ _ _ hr
           rw [← h.2]; simp; omega
     · simp only [Except.ok.injEq, Prod.mk.injEq] at h; rw [← h.2]; simp
 
